@@ -66,13 +66,13 @@ META.update({
   technique="client obligations: the real generic read_*/write_* on the executable trait contract (abstract 256-bit stream), Kani/CBMC; Verus for unbounded Golomb/Rice pieces",
   category="proof",
   text="Proof over the whole value domain (2^64-2 / 2^64-1) with symbolic preceding and following bits: for gamma, delta, omega, zeta3, VByte BE/LE (all table options) and zeta_k/pi_k/exp-Golomb_k on a parameter grid, the real reader applied to what the real writer wrote returns the value and stops exactly at the end of the codeword. "
-       "Composition with C01/C02 (every writer/reader configuration refines the same stream contract) gives every word size, reader kind and position. Unary/Rice/Golomb/minimal-binary are bounded (quotient must fit the 256-bit model; Golomb moduli on a constant grid).",
+       "Composition with C01/C02 (every writer/reader configuration refines the same stream contract) gives every word size, reader kind and position. Unary/Rice/Golomb/minimal-binary are bounded (quotient must fit the 256-bit model; Golomb moduli on a constant grid). The non-table delta writer and reader (default_write_delta / default_read_delta) are additionally proved by Verus on the extracted text against the Seq<bool> stream contract (gamma prefix by contract).",
   note="Abstract model BitsStream is the trusted executable form of the trait contract (it also checks the preconditions clients must respect). zeta/pi/Rice/exp-Golomb parameters on the grid {0,1,2,3,4,5,8,13,31,32,33,62,63}; Golomb moduli on a 31-point grid (symbolic divisor is not tractable for SAT).",
   design="4/C03"),
  "C04": dict(
   technique="client obligations against independent spec functions (self-tested on the repository's literal codewords), Kani/CBMC",
   category="proof",
-  text="Proof for every value of the domain and symbolic parameter (zeta k in 1..=63, pi/exp-Golomb/Rice k in 0..=63): the bits the real writer appends to the abstract stream equal the codeword built by spec.rs from the published definitions (BE and LE conventions), with every table option; Golomb/minimal binary on a modulus grid (bounded).",
+  text="Proof for every value of the domain and symbolic parameter (zeta k in 1..=63, pi/exp-Golomb/Rice k in 0..=63): the bits the real writer appends to the abstract stream equal the codeword built by spec.rs from the published definitions (BE and LE conventions), with every table option; Golomb/minimal binary on a modulus grid (bounded). default_write_delta is additionally proved by Verus (extracted text) to append gamma(floor(log2(n+1))) followed by the low bits of n+1, for every value.",
   note="Oracle = /verif/contracts/src/spec.rs, transcribed from module docs; self-tested natively against 160 literal codewords of the repository's tests and doc tables. zeta_k compared where the interval bound is capped at 2^64 (the library and the spec agree on the capped interval).",
   design="4/C04"),
  "C05": dict(
@@ -86,7 +86,7 @@ META.update({
   technique="client obligations (len_* vs spec length vs value returned by write vs bits appended vs bits consumed), Kani/CBMC",
   category="proof",
   text="Proof over the full 64-bit domain and symbolic parameters: every len_* function (with and without length tables) equals the defined codeword length (u128 arithmetic), equals the value returned by the write and the number of bits appended (where the codeword fits the model), and equals the bits the read consumes (round-trip obligations).",
-  note="Length objects: FuncCodeLen / Codes::len on every named code for every value (c06.len_objects.*), the bits written / consumed by them on a value grid. Unary/Rice/Golomb writes bounded by the 256-bit model; their len functions are proved for every value (Verus for every parameter / modulus). The stream primitives the codes run on are part of the check as Verus units (callee contracts).",
+  note="Length objects: FuncCodeLen / Codes::len on every named code for every value (c06.len_objects.*), the bits written / consumed by them on a value grid. Unary/Rice/Golomb writes bounded by the 256-bit model; their len functions are proved for every value (Verus for every parameter / modulus). len_delta_param (non-table path), default_write_delta and default_read_delta are Verus-proved on the extracted text (length = bits appended = bits consumed, every value). The stream primitives the codes run on are part of the check as Verus units (callee contracts).",
   design="4/C06"),
  "C08": dict(
   technique="Verus loop invariants on the extracted real text of the default and the optimised copy_to/copy_from; Kani contract harnesses (window-bounded, with counterexamples) for the optimised paths",
